@@ -1,5 +1,5 @@
 """Property -> rules table.  Rules are functions (ctx, repo)."""
-from .rules import ndim, iface, wrappers, rng, mech, errmodels, popmodels, switch, copies, cursors, reduced, layout, noise, filters, caches, problems, dosing
+from .rules import ndim, iface, wrappers, rng, mech, errmodels, popmodels, switch, copies, cursors, reduced, layout, noise, filters, caches, problems, dosing, sbml
 
 PROPS = {}
 
@@ -177,6 +177,29 @@ prop('C08',
                  'per name, release on None and collapse to None, so the '
                  'state is a function of the name-value set; that a change '
                  'of the free set re-requests enabled sensitivities.')
+
+prop('C09',
+     [sbml.r09_1, sbml.r09_2, sbml.r09_3, sbml.r09_4, sbml.r09_5,
+      switch.r08_7, reduced.r08_1],
+     undecided=['the ODE solution and its derivatives (myokit / sundials)',
+                'myokit\'s SBML import beyond the SBML level-3 reading of '
+                'species in kinetic laws'],
+     assumptions=COMMON_ASSUME + [
+         'SBML level 3: a species with hasSubstanceUnits=false denotes '
+         'amount/compartment size in kinetic laws; reactants lose '
+         'stoichiometry * law',
+         'the transcription of the ModelLibrary docstring equations'],
+     technique='def-use rules on the parameter / state bookkeeping, '
+               'permutation-kind tracking (argsort vs. argsort of argsort), '
+               'MathML -> term comparison of the shipped SBML files with the '
+               'documented equations',
+     explanation='Decides the index bookkeeping between the published '
+                 'parameter order and the solver: states then constants with '
+                 'one boundary, inverse permutation for the states, '
+                 'sensitivities requested in published order (also for the '
+                 'free set of a reduced model), name maps built in one '
+                 'place; and that the rate equations of the four shipped '
+                 'SBML files equal the documented equations.')
 
 prop('C10',
      [dosing.r10_1, dosing.r10_2, dosing.r10_5, mech.r11_1, problems.r14_3,
